@@ -289,3 +289,29 @@ _termini("capped_then_water", [AMINO(0), AMINO(1), CAP(2, "NME"), WATER(3)], Non
 _termini("amide_then_waters", [AMINO(0), AMINO(1), CAP(2, "NH2"), WATER(3), WATER(4)], None, 1,
          ["len(r1.patches) == 0 and not r1.is_c_term", "len(r2.patches) == 0"])
 _termini("two_waters_last", [AMINO(0), AMINO(1), WATER(2), WATER(3)], 1, 1, ["len(r2.patches) == 0 and len(r3.patches) == 0"])
+
+
+# head-to-tail cyclic peptides whose first or last residue is not a standard amino acid (D-residue, N-methyl residue,
+# any hetero group carrying the ring's N or C): the ring has no free ends whatever the class of its end residues
+def HET(i, atoms):
+    return Named(f"r{i}", Obj("pdb2pqr.residue:Residue", name=Const("SAR"), patches=Items(), is_n_term=Const(0), is_c_term=Const(0),
+                              map=DictOf(*[(a, Named(f"{a.lower()}{i}", XYZ(a, bonds=Items()))) for a in atoms])))
+
+
+for _tag, _res, _close, _free in (
+        ("hetero_first", [HET(0, ["N", "C"]), AMINO(1), AMINO(2)], "d2(n0, c2)",
+         ["cterm_once(r2, neutralc) and len(r2.patches) == 1", "untouched(r1)"]),
+        ("hetero_last", [AMINO(0), AMINO(1), HET(2, ["N", "C"])], "d2(n0, c2)",
+         ["nterm_once(r0, neutraln) and len(r0.patches) == 1", "cterm_once(r1, neutralc) and len(r1.patches) == 1"])):
+    contract(
+        "pdb2pqr.biomolecule:Biomolecule.assign_termini", ["C02", "C09"],
+        params={"self": Obj("pdb2pqr.biomolecule:Biomolecule"),
+                "chain": Obj("pdb2pqr.structures:Chain", chain_id=Const("A"), residues=Items(*_res)),
+                "neutraln": Enum(False, True), "neutralc": Enum(False, True)},
+        requires=[],
+        ensures=[f"implies({_close} < 1.35 * 1.35, untouched(r0) and untouched(r1) and untouched(r2))"]
+                + [f"implies(not ({_close} < 1.35 * 1.35), {e})" for e in _free] + ["len(r%d.patches) == 0" % (0 if _tag == "hetero_first" else 2)],
+        stubs={"pdb2pqr.biomolecule:Biomolecule.apply_patch": "stub_apply_patch"},
+        name=f"assign_termini.cyclic.{_tag}",
+        native=False,
+    )
